@@ -19,10 +19,16 @@ pub const BIN: &str = "/verif/target/cli/release/stylua";
 pub struct Tree {
     /// (relative path, bytes); directories are created as needed; a path ending in '/' is an empty directory
     pub files: Vec<(String, Vec<u8>)>,
+    /// symbolic links (relative path of the link, link text), created after the files
+    pub links: Vec<(String, String)>,
 }
 impl Tree {
     pub fn add(&mut self, p: &str, b: &[u8]) -> &mut Self {
         self.files.push((p.to_string(), b.to_vec()));
+        self
+    }
+    pub fn link(&mut self, p: &str, target: &str) -> &mut Self {
+        self.links.push((p.to_string(), target.to_string()));
         self
     }
 }
@@ -146,6 +152,13 @@ pub fn execute(id: usize, tree: &Tree, run: &Run) -> Outcome {
         std::fs::write(&full, b).unwrap();
     }
     std::fs::create_dir_all(root.join(&run.cwd)).unwrap();
+    for (p, target) in &tree.links {
+        let full = root.join(p);
+        if let Some(par) = full.parent() {
+            std::fs::create_dir_all(par).unwrap();
+        }
+        let _ = std::os::unix::fs::symlink(target, &full);
+    }
     if let Some(u) = run.uid {
         fn give(p: &Path, u: u32) {
             let _ = std::os::unix::fs::chown(p, Some(u), Some(u));
@@ -751,7 +764,7 @@ fn layout_paths(kinds: &[Kind], layout: &str) -> Vec<String> {
         .iter()
         .enumerate()
         .map(|(i, _)| match layout {
-            "flat" | "dir" => format!("a{}.lua", i),
+            "flat" | "dir" | "linkdir" => format!("a{}.lua", i),
             // the last file has a name the traversal does not select and is named explicitly after the directory
             "dir+txt" => {
                 if i + 1 == kinds.len() {
@@ -775,7 +788,7 @@ pub fn c13(thorough: bool, stats: &mut Stats) -> Vec<Failure> {
     let alpha = [Kind::Formatted, Kind::Unformatted, Kind::Unparseable, Kind::InvalidUtf8, Kind::Missing, Kind::Crlf, Kind::NoEol, Kind::NotDir];
     let mut scs = vec![];
     for ks in multisets(&alpha, if thorough { 4 } else { 3 }, false) {
-        for layout in ["flat", "dir", "subdir", "dir+txt"] {
+        for layout in ["flat", "dir", "subdir", "dir+txt", "linkdir"] {
             if layout != "flat" && (ks.contains(&Kind::Missing) || ks.contains(&Kind::NotDir)) {
                 continue;
             }
@@ -792,7 +805,13 @@ pub fn c13(thorough: bool, stats: &mut Stats) -> Vec<Failure> {
                             let mut t = Tree::default();
                             for (i, k) in ks.iter().enumerate() {
                                 if *k != Kind::Missing {
-                                    t.add(&paths[i], &k.bytes(i));
+                                    if layout == "linkdir" {
+                                        // the files live in store/, the traversed directory d/ holds symbolic links to them
+                                        t.add(&format!("store/{}", paths[i]), &k.bytes(i));
+                                        t.link(&format!("d/{}", paths[i]), &format!("../store/{}", paths[i]));
+                                    } else {
+                                        t.add(&paths[i], &k.bytes(i));
+                                    }
                                 }
                             }
                             let mut argv: Vec<String> = vec!["--check".into(), "--color".into(), "Never".into(), "--output-format".into(), fmt.into(), "--num-threads".into(), nt.to_string()];
@@ -804,7 +823,7 @@ pub fn c13(thorough: bool, stats: &mut Stats) -> Vec<Failure> {
                                 ps.rotate_left(rot);
                                 argv.extend(ps);
                             } else {
-                                argv.push(".".into());
+                                argv.push(if layout == "linkdir" { "d" } else { "." }.into());
                                 if layout == "dir+txt" {
                                     argv.push("e.txt".into());
                                 }
@@ -1093,8 +1112,9 @@ fn place_content(i: usize) -> String {
 /// (0 = p, 1 = p/w = cwd, 2 = p/w/s, 3 = p/w/s/d); `stdin_plain` = stdin without --stdin-filepath
 fn c15_model(places: &[usize], level: usize, search_parents: bool, no_editorconfig: bool, config_path: Option<usize>, over: bool) -> Vec<usize> {
     let has = |i: usize| places.contains(&i);
+    // the command line sets indent_type AND indent_width, so the override is observable whatever else was found
     let fin = |n: usize| -> usize {
-        if over && n != 0 {
+        if over {
             OVERRIDE_WIDTH
         } else {
             n
@@ -1142,7 +1162,7 @@ fn c15_model(places: &[usize], level: usize, search_parents: bool, no_editorconf
             return vec![fin(10)];
         }
     }
-    vec![0]
+    vec![fin(0)]
 }
 
 fn indent_of(out: &str) -> Option<usize> {
@@ -1186,6 +1206,8 @@ pub fn c15(thorough: bool, stats: &mut Stats) -> Vec<Failure> {
         Target { name: ".", args: vec!["."], stdin: false, files: vec![("p/w/f.lua", 1), ("p/w/s/f.lua", 2), ("p/w/s/d/f.lua", 3)], stdin_level: 0 },
         Target { name: "../o.lua", args: vec!["../o.lua"], stdin: false, files: vec![("p/o.lua", 0)], stdin_level: 0 },
         Target { name: "abs:../o.lua", args: vec!["$ROOT/p/o.lua"], stdin: false, files: vec![("p/o.lua", 0)], stdin_level: 0 },
+        // a symbolic link in the working directory to a file two levels down: the search starts where the NAME given lives
+        Target { name: "lk.lua->s/d/f.lua", args: vec!["lk.lua"], stdin: false, files: vec![("p/w/s/d/f.lua", 1)], stdin_level: 0 },
         Target { name: "stdin", args: vec!["-"], stdin: true, files: vec![], stdin_level: 1 },
         Target { name: "stdin@f.lua", args: vec!["--stdin-filepath", "f.lua", "-"], stdin: true, files: vec![], stdin_level: 1 },
         Target { name: "stdin@s/f.lua", args: vec!["--stdin-filepath", "s/f.lua", "-"], stdin: true, files: vec![], stdin_level: 2 },
@@ -1202,7 +1224,7 @@ pub fn c15(thorough: bool, stats: &mut Stats) -> Vec<Failure> {
                             continue;
                         }
                         let mut cps: Vec<Option<usize>> = vec![None];
-                        if ti == 0 || ti == 9 {
+                        if ti == 0 || t.name == "stdin" {
                             for i in sub.iter().filter(|i| !PLACES[**i].0.ends_with(".editorconfig")) {
                                 cps.push(Some(*i));
                             }
@@ -1217,6 +1239,9 @@ pub fn c15(thorough: bool, stats: &mut Stats) -> Vec<Failure> {
                             }
                             tree.add("_home/", b"");
                             tree.add("_xdg/", b"");
+                            if t.name.starts_with("lk.lua") {
+                                tree.link("p/w/lk.lua", "s/d/f.lua");
+                            }
                             let mut argv: Vec<String> = vec!["--color".into(), "Never".into()];
                             if sp {
                                 argv.push("--search-parent-directories".into());
@@ -1225,6 +1250,8 @@ pub fn c15(thorough: bool, stats: &mut Stats) -> Vec<Failure> {
                                 argv.push("--no-editorconfig".into());
                             }
                             if over {
+                                argv.push("--indent-type".into());
+                                argv.push("Spaces".into());
                                 argv.push("--indent-width".into());
                                 argv.push(OVERRIDE_WIDTH.to_string());
                             }
@@ -1655,6 +1682,11 @@ pub fn c17(thorough: bool, stats: &mut Stats) -> Vec<Failure> {
         ("check-unified", vec!["--check", "--output-format", "Unified"]),
         ("check-json", vec!["--check", "--output-format", "Json"]),
         ("check-summary", vec!["--check", "--output-format", "Summary"]),
+        // a positive --glob pattern must not filter the stdin pseudo-file
+        ("glob", vec!["-g", "**/*.lua"]),
+        // an .editorconfig is present in these two (stylua.toml, when there, still comes first)
+        ("editorconfig", vec![]),
+        ("no-editorconfig", vec!["--no-editorconfig"]),
     ];
     let filepaths: Vec<(&str, Vec<&str>)> = vec![
         ("none", vec![]),
@@ -1689,6 +1721,9 @@ pub fn c17(thorough: bool, stats: &mut Stats) -> Vec<Failure> {
                     t.add("src/keep.lua", b"local   untouched  =  1\n");
                     if with_cfg {
                         t.add("stylua.toml", b"indent_type = \"Spaces\"\nindent_width = 2\n");
+                    }
+                    if oname.ends_with("editorconfig") {
+                        t.add(".editorconfig", b"root = true\n[*.lua]\nindent_style = space\nindent_size = 5\nquote_type = single\n");
                     }
                     let mut argv: Vec<String> = vec!["--color".into(), "Never".into()];
                     argv.extend(oargs.iter().map(|s| s.to_string()));
@@ -1731,6 +1766,11 @@ pub fn c17(thorough: bool, stats: &mut Stats) -> Vec<Failure> {
             cfg.iw = 3;
             cfg.qs = 3;
             cfg.le = 1;
+        }
+        if oname == "editorconfig" && !*with_cfg && !fname.contains("outside") {
+            cfg.it = 1;
+            cfg.iw = 5;
+            cfg.qs = 1;
         }
         let range = if oname == "range" { Some((Some(0usize), Some(16usize))) } else { None };
         let skipped = matches!(fname.as_str(), "ignored.lua+respect" | "vendor/other.lua+respect" | "abs-ignored+respect");
@@ -2025,6 +2065,53 @@ pub fn c20(_thorough: bool, stats: &mut Stats) -> Vec<Failure> {
             }
         }
     }
+    // indent_width also matters under Tabs: it is the width a tab counts for when a line is measured. A statement two levels
+    // deep that fits 40 columns only when a tab counts 1..4
+    let tab_probe = "do\n\tdo\n\t\tlocal value = call(alpha, beta)\n\tend\nend\n";
+    for iw in [1usize, 4, 8] {
+        let cfgv = Cfg { it: 0, iw, ..d };
+        let carriers: Vec<(&str, Option<String>, Option<String>, Vec<String>)> = vec![
+            ("stylua.toml", Some(format!("column_width = 40\nindent_type = \"Tabs\"\nindent_width = {}\n", iw)), None, vec![]),
+            ("flag", None, None, vec!["--column-width".into(), "40".into(), "--indent-type".into(), "Tabs".into(), "--indent-width".into(), iw.to_string()]),
+            (".editorconfig", None, Some(format!("root = true\n[*.lua]\nmax_line_length = 40\nindent_style = tab\nindent_size = {}\n", iw)), vec![]),
+            (".editorconfig(tab_width)", None, Some(format!("root = true\n[*.lua]\nmax_line_length = 40\nindent_style = tab\nindent_size = tab\ntab_width = {}\n", iw)), vec![]),
+        ];
+        for (cname, toml, ec, flags) in carriers {
+            let mut t = Tree::default();
+            t.add("f.lua", tab_probe.as_bytes());
+            if let Some(x) = &toml {
+                t.add("stylua.toml", x.as_bytes());
+            }
+            if let Some(x) = &ec {
+                t.add(".editorconfig", x.as_bytes());
+            }
+            let mut argv: Vec<String> = vec!["--color".into(), "Never".into()];
+            argv.extend(flags.clone());
+            argv.push("f.lua".into());
+            let desc = format!("C20 option=indent_width(Tabs) carrier={} value={} width=40 probe=tab", cname, iw);
+            metas.push((desc.clone(), 40, cfgv, false));
+            scs.push(Scenario { desc, tree: t, run: Run { argv, ..Run::default() } });
+        }
+    }
+    // two files of one directory in ONE invocation whose .editorconfig sections differ: each gets its own section
+    for (w, v) in &all {
+        let Some(other) = all.iter().find(|(w2, v2)| v2.opt == v.opt && (v2.cfg != v.cfg || w2 != w) && v2.ec.is_some()) else { continue };
+        let (Some((k1, val1)), Some((k2, val2))) = (&v.ec, &other.1.ec) else { continue };
+        for order in [["f.lua", "g.lua"], ["g.lua", "f.lua"]] {
+            let mut t = Tree::default();
+            t.add("f.lua", probe.as_bytes());
+            t.add("g.lua", probe.as_bytes());
+            t.add(".editorconfig", format!("root = true\n[f.lua]\n{} = {}\n[g.lua]\n{} = {}\n", k1, val1, k2, val2).as_bytes());
+            let mut argv: Vec<String> = vec!["--color".into(), "Never".into()];
+            argv.extend(order.iter().map(|x| x.to_string()));
+            let desc = format!("C20 option={} carrier=.editorconfig-sections value={:?} width={} order={:?}", v.opt, format!("[f.lua] {} = {} [g.lua] {} = {}", k1, val1, k2, val2), w, order);
+            if metas.iter().any(|m| m.0 == desc) {
+                continue;
+            }
+            metas.push((desc.clone(), *w, v.cfg, false));
+            scs.push(Scenario { desc, tree: t, run: Run { argv, ..Run::default() } });
+        }
+    }
     let idx: std::collections::HashMap<String, usize> = scs.iter().enumerate().map(|(i, s)| (s.desc.clone(), i)).collect();
     let probe_s = probe.to_string();
     run_all(scs, "E2-C20", stats, |s, o| {
@@ -2045,6 +2132,7 @@ pub fn c20(_thorough: bool, stats: &mut Stats) -> Vec<Failure> {
             return f;
         }
         // the probe contains `//`, which only some dialects accept: expected = library output and exit 0, or untouched and exit 2
+        let probe_s = if s.desc.ends_with("probe=tab") { tab_probe.to_string() } else { probe_s.clone() };
         let (exp, want_code) = match crate::explore::run_format(&probe_s, cfg, *w, None).0 {
             crate::explore::Out::Ok(x) => (x, 0),
             _ => (probe_s.clone(), 2),
